@@ -20,7 +20,8 @@ for line in out.splitlines():
     if line.startswith("VIOLATION"):
         rp = line.split("replay=")[1].strip()
         keys.append(json.load(open(rp))["key"])
-conf = subprocess.run(["/verif/confirm_seeded.sh", d, demo], stdout=subprocess.PIPE, text=True).stdout
+pkg = os.environ.get("DEMO_PKG", "sudachi")
+conf = subprocess.run(["/verif/confirm_seeded.sh", d, demo, pkg], stdout=subprocess.PIPE, text=True).stdout
 meta = {
     "id": sid, "property": prop, "source": "independent sub-agent given only the property text and a scratch worktree",
     "needs_to_manifest": needs,
